@@ -558,4 +558,4 @@ mod tests {
 
 #[cfg(kani)]
 #[path = "/verif/harness/may/sync_mutex.rs"]
-mod verif_kani;
+pub(crate) mod verif_kani;
